@@ -18,6 +18,47 @@ def run_impl(binary, cases, chunk=400):
     return results, None
 
 
+def run_stream(binary, cases, chunk=600):
+    """mode "stream" of the device harness: production-capacity output channel, back-to-back events, lagging consumer"""
+    results = []
+    for i in range(0, len(cases), chunk):
+        batch = [dict(c, logs=((i + j) % 3 == 0)) for j, c in enumerate(cases[i:i + chunk])]
+        out, err = run_harness(binary, "stream", {"cases": batch}, timeout=900)
+        if out is None:
+            return None, err
+        results += out["results"]
+    return results, None
+
+
+def receiver_trajectory(stream):
+    """what a receiver makes of a message stream: the sequence of distinct (sounding notes, non-zero controllers, bends) states"""
+    notes, ccs, pbs = set(), {}, {}
+    traj = []
+    last = None
+    for m in stream:
+        if len(m) != 3:
+            continue
+        st, ch = m[0] & 0xF0, m[0] & 15
+        if st == 0x90 and m[2] > 0:
+            notes.add((ch, m[1]))
+        elif st == 0x80 or st == 0x90:
+            notes.discard((ch, m[1]))
+        elif st == 0xB0:
+            if m[1] == 123:
+                notes -= {n for n in notes if n[0] == ch}
+            elif m[2]:
+                ccs[(ch, m[1])] = m[2]
+            else:
+                ccs.pop((ch, m[1]), None)
+        elif st == 0xE0:
+            pbs[ch] = (m[1], m[2])
+        cur = (tuple(sorted(notes)), tuple(sorted(ccs.items())), tuple(sorted(pbs.items())))
+        if cur != last:
+            traj.append(cur)
+            last = cur
+    return traj
+
+
 def emit_kcase(case, res):
     cfg = case["cfg"]
     sid = devgen.sub_ids(cfg)
